@@ -12,6 +12,7 @@ import SwimVerif.Proofs.Stores
 import SwimVerif.Proofs.StoresHandover
 import SwimVerif.Proofs.StoresNeverLost
 import SwimVerif.Proofs.StoresCrash
+import SwimVerif.Proofs.StoresCrashRun
 
 set_option linter.unusedVariables false
 namespace SwimVerif.Store
@@ -443,5 +444,59 @@ example :
     (Rocks.runOut (Rocks.recover s) [.opn 3 0 [47, 98], .data 3 (.read 1)]).2 = [.ready, .entries [([0], [1])]] ∧
     (Rocks.runOut (Rocks.recover (Rocks.step s (.data 0 (.upd 1 [255] [2]))).1) [.opn 3 0 [47, 98], .data 3 (.read 1)]).2 =
       [.ready, .entries [([0], [1]), ([255], [2])]] := ⟨rfl, by decide, by decide⟩
+
+/-! ### histories with any number of kills -/
+
+/-- **refines_spec with kills and reopen points anywhere** (T2): every history of the RocksDB store model made of
+acknowledged ops (opens, drops, data ops with ids `< 2^56`, `reopen`) and kills — each at any cut of any op in flight,
+any number of times — is a history of the specification in which a kill forgets the handles and leaves the state
+before the op in flight, the state after it, or (for `id_for` of a new name only) the state before it with one id
+burnt; the acknowledged results agree op for op. -/
+theorem C13_rocks_refines_spec_with_crashes (evs : List Rocks.CEv) (hok : ∀ e ∈ evs, Rocks.CEv.idOk e) :
+    ∃ souts, Rocks.SReach (Rocks.absSt Rocks.init) evs (Rocks.absSt (Rocks.crunOut Rocks.init evs).1) souts ∧
+      OutsRel (Rocks.crunOut Rocks.init evs).2 souts :=
+  (Rocks.crun_refines evs Rocks.init Rocks.stInv_init hok).2
+
+/-- Non-vacuity: a kill inside `id_for "c"` (cut 1: counter merged, name not stored), a kill after the write of an
+`update_map` (cut 1) and a kill before the write of a `put_value` (cut 0), with ops in between. -/
+example : (Rocks.crunOut Rocks.init [.op (.opn 0 0 [47, 97]), .op (.data 0 (.idFor [98])), .op (.data 0 (.put 1 [170])),
+      .crash (.data 0 (.idFor [99])) 1,
+      .op (.opn 0 0 [47, 97]), .op (.data 0 (.idFor [99])), .crash (.data 0 (.upd 3 [7] [8])) 1,
+      .op (.opn 1 0 [47, 98]), .crash (.data 1 (.put 1 [187])) 0,
+      .op (.opn 2 0 [47, 97]), .op (.data 2 (.idFor [98])), .op (.data 2 (.idFor [99])), .op (.data 2 (.get 1)),
+      .op (.data 2 (.read 3))]).2 =
+    [.ready, .id 1, .ok, .ready, .id 3, .ready, .ready, .id 1, .id 3, .some [170], .entries [([7], [8])]] := by decide
+
+/-- **id_stable / id_injective on stored names, across kills**: in every such history, per plane, two different
+stored names never share an id, and a name keeps its id through all later ops, kills and reopens. -/
+theorem C13_rocks_ids_stable_injective_across_crashes (evs evs' : List Rocks.CEv)
+    (hok : ∀ e ∈ evs, Rocks.CEv.idOk e) (hok' : ∀ e ∈ evs', Rocks.CEv.idOk e) :
+    let s := (Rocks.crunOut Rocks.init evs).1
+    let s' := (Rocks.crunOut s evs').1
+    (∀ a b n, aget s.p0.lanes a = some n → aget s.p0.lanes b = some n → a = b) ∧
+    (∀ a b n, aget s.p1.lanes a = some n → aget s.p1.lanes b = some n → a = b) ∧
+    (∀ nm n, aget s.p0.lanes nm = some n → aget s'.p0.lanes nm = some n) ∧
+    (∀ nm n, aget s.p1.lanes nm = some n → aget s'.p1.lanes nm = some n) := by
+  intro s s'
+  have hi0 : IdsInv 1 (Rocks.abs {}) :=
+    ⟨by intro nm n h; simp [Rocks.abs, aget] at h, by intro a b n h; simp [Rocks.abs, aget] at h⟩
+  obtain ⟨r1, souts, r2, _⟩ := Rocks.crun_refines evs Rocks.init Rocks.stInv_init hok
+  obtain ⟨i0, i1, _, _⟩ := Rocks.ids_sreach r2 hi0 hi0
+  obtain ⟨_, souts', r3, _⟩ := Rocks.crun_refines evs' s r1 hok'
+  obtain ⟨_, _, j0, j1⟩ := Rocks.ids_sreach r3 i0 i1
+  exact ⟨fun a b n ha hb => i0.inj a b n ha hb, fun a b n ha hb => i1.inj a b n ha hb,
+    fun nm n h => j0 nm n h, fun nm n h => j1 nm n h⟩
+
+/-- **Every acknowledged operation is still present after a kill**: whatever a client can read back (names ↦ ids,
+values, maps) after a kill is that of the state before the op in flight — the fold of everything acknowledged — or
+of the state after it. -/
+theorem C13_crash_keeps_acknowledged_data (s s' : Rocks.SSt) (inflight : Op) (h : Rocks.SCrash s inflight s') :
+    Rocks.SameData s' (Rocks.sstep s .reopen).1 ∨ Rocks.SameData s' (Rocks.sstep (Rocks.sstep s inflight).1 .reopen).1 :=
+  Rocks.scrash_sameData h
+
+example : Rocks.SCrash (Rocks.absSt (Rocks.runOut Rocks.init [.opn 0 0 [47, 97]]).1) (.data 0 (.idFor [99]))
+    (Rocks.sstep (Rocks.sset (Rocks.absSt (Rocks.runOut Rocks.init [.opn 0 0 [47, 97]]).1) 0
+      (Rocks.burn (Rocks.sget (Rocks.absSt (Rocks.runOut Rocks.init [.opn 0 0 [47, 97]]).1) 0))) .reopen).1 :=
+  .burnt 0 0 [47, 97] [99] rfl (by decide) (by decide)
 
 end SwimVerif.Store
